@@ -55,7 +55,7 @@ Theorem copy_filtered h other pos w c w' :
     Filt T v w w1 other c /\ FreshTree (w_next w) w1 c /\ Ext w w1 /\ CopyRel T w1 w' h c.
 Proof.
   intros Cw H. apply copy_call_inner in H as [(_ & e & [=]) | (m & v & p & _ & _ & Hv & H)].
-  destruct (ccsei_spec T _ _ _ _ _ _ _ _ Cw H) as (_ & _ & ns & _ & _ & w1 & Hd & HR).
+  destruct (ccsei_spec T _ _ _ _ _ _ _ _ Cw H) as (_ & _ & ns & _ & _ & w1 & Hd & HR & _).
   exists v, w1. split; auto.
   destruct (deep_copy_fresh T _ _ _ _ _ _ Cw Hd) as (HF & Ex & _).
   split; [eapply deep_copy_filtered; eauto|]. auto.
